@@ -20,6 +20,7 @@ Named(script) ==
   UNION { { FileName(f) : f \in FilesOf(script[i].srcs) \cup
                                  (IF script[i].kind = "step" \/ (script[i].kind = "copy" /\ script[i].dist)
                                     THEN FilesOf(script[i].ins) ELSE {}) }
+          \cup (IF script[i].pch THEN {PchFile(script[i].name) \o ".h"} ELSE {})
           : i \in 1..Len(script) }
 \* files named only by dist=False declarations
 NoDistOnly(script) ==
